@@ -346,6 +346,9 @@ def _layers(stmts, env, assume_env_section=True):
             t = norm_text(st.test)
             if t == "'env' in cfg.sections()" and assume_env_section:
                 _layers(st.body, env)
+        elif isinstance(st, ast.Try):
+            _layers(st.body, env)
+            _layers(st.finalbody, env)
     return env
 
 
